@@ -40,6 +40,7 @@ const preludeBase = `(set-logic ALL)
 (declare-fun pl_mget (Val Val) Val)
 (declare-fun tassignable (Int Int) Bool)
 (declare-fun tnumin (Int) Int)
+(declare-fun sprint1 (Val) Str)
 (declare-fun tvariadic (Int) Bool)
 (declare-fun tin (Int Int) Int)
 (assert (forall ((t Int)) (! (tassignable t t) :pattern ((tassignable t t)))))
